@@ -29,3 +29,46 @@ package qr
 //@   requires 0 <= dataBits && dataBits <= 100000000 && (mode == 1 || mode == 2 || mode == 4 || mode == 8)
 //@   ensures result != nil ==> qrRow(result) && result.Level == ecl && qrCap(result) * 8 >= dataBits + 4 + qrCCB(result, mode)
 //@   loop 1 invariant dataBits == dataBits0 + 4 && -1 <= rangeindex
+
+// ISO 18004 7.4.9/7.4.10: up to four terminator zeros, zeros up to the next codeword boundary, then
+// the pad codewords 11101100 (236) and 00010001 (17) alternately up to the data capacity
+//@ define qrTerm(c int, capBits int) int = (c + 4 <= capBits) ? (c + 4) : capBits
+//@ define qrAligned(c int, capBits int) int = ((qrTerm(c, capBits) + 7) / 8) * 8
+// bit t (0 = most significant) of pad codeword number p: 11101100 / 00010001 alternately
+//@ define qrPadBit(p int, t int) bool = (p % 2 == 0) ? (t == 0 || t == 1 || t == 2 || t == 4 || t == 5) : (t == 3 || t == 7)
+//@ func addPaddingAndTerminator
+//@   requires bl != nil && qrRow(vi) && 0 <= bl.count && bl.count <= qrCap(vi) * 8
+//@   modifies bl.count, bl.model
+//@   ensures bl.count == qrCap(vi) * 8
+//@   ensures forall j int :: 0 <= j && j < old(bl.count) ==> bl.model[j] == old(bl.model[j])
+//@   ensures forall j int :: old(bl.count) <= j && j < qrAligned(old(bl.count), qrCap(vi) * 8) ==> !bl.model[j]
+//@   ensures forall p int, t int :: 0 <= p && qrAligned(old(bl.count), qrCap(vi) * 8) + 8*p + 8 <= qrCap(vi) * 8 && 0 <= t && t < 8 ==> bl.model[qrAligned(old(bl.count), qrCap(vi) * 8) + 8*p + t] == qrPadBit(p, t)
+//@   loop 1 invariant 0 <= i && i <= 4 && bl.count == old(bl.count) + i && bl.count <= qrCap(vi) * 8 && qrRow(vi)
+//@   loop 1 invariant forall j int :: 0 <= j && j < old(bl.count) ==> bl.model[j] == old(bl.model[j])
+//@   loop 1 invariant forall j int :: old(bl.count) <= j && j < bl.count ==> !bl.model[j]
+//@   loop 2 invariant qrTerm(old(bl.count), qrCap(vi) * 8) <= bl.count && bl.count <= qrAligned(old(bl.count), qrCap(vi) * 8) && qrRow(vi)
+//@   loop 2 invariant forall j int :: 0 <= j && j < old(bl.count) ==> bl.model[j] == old(bl.model[j])
+//@   loop 2 invariant forall j int :: old(bl.count) <= j && j < bl.count ==> !bl.model[j]
+//@   loop 3 invariant 0 <= i && bl.count == qrAligned(old(bl.count), qrCap(vi) * 8) + 8*i && bl.count <= qrCap(vi) * 8 && qrRow(vi)
+//@   loop 3 invariant forall j int :: 0 <= j && j < old(bl.count) ==> bl.model[j] == old(bl.model[j])
+//@   loop 3 invariant forall j int :: old(bl.count) <= j && j < qrAligned(old(bl.count), qrCap(vi) * 8) ==> !bl.model[j]
+//@   loop 3 invariant forall p int, t int :: 0 <= p && p < i && 0 <= t && t < 8 ==> bl.model[qrAligned(old(bl.count), qrCap(vi) * 8) + 8*p + t] == qrPadBit(p, t)
+
+// ---- byte mode (ISO 18004 7.4.5): mode indicator 0100, character count (8 or 16 bits), the bytes,
+// then terminator and padding. qrHdr = length of the segment header.
+//@ define qrHdr(vi *versionInfo, m int) int = 4 + qrCCB(vi, m)
+//@ define qrBitOf(v int, w int, t int) bool = (v / ((t == w-1) ? 1 : ((t == w-2) ? 2 : ((t == w-3) ? 4 : ((t == w-4) ? 8 : ((t == w-5) ? 16 : ((t == w-6) ? 32 : ((t == w-7) ? 64 : ((t == w-8) ? 128 : ((t == w-9) ? 256 : ((t == w-10) ? 512 : ((t == w-11) ? 1024 : ((t == w-12) ? 2048 : ((t == w-13) ? 4096 : ((t == w-14) ? 8192 : ((t == w-15) ? 16384 : 32768)))))))))))))))) % 2 == 1
+//@ func encodeUnicode
+//@   attr init_tables qr.versionInfo
+//@   requires len(content) <= 10000000
+//@   ensures (result2 == nil) == (result0 != nil) && (result2 == nil) == (result1 != nil)
+//@   ensures result2 == nil ==> qrRow(result1) && result1.Level == ecl && fresh(result0) && result0.count == qrCap(result1) * 8 && qrHdr(result1, 4) + 8 * len(content) <= qrCap(result1) * 8
+//@   ensures result2 == nil ==> !result0.model[0] && result0.model[1] && !result0.model[2] && !result0.model[3]
+//@   ensures result2 == nil ==> (forall t int :: 0 <= t && t < qrCCB(result1, 4) ==> result0.model[4 + t] == qrBitOf(len(content), qrCCB(result1, 4), t))
+//@   ensures result2 == nil ==> (forall k int, t int :: 0 <= k && k < len(content) && 0 <= t && t < 8 ==> result0.model[qrHdr(result1, 4) + 8*k + t] == qrBitOf(content[k], 8, t))
+//@   loop 1 invariant -1 <= rangeindex && rangeindex < len(data) && len(data) == len(content) && fresh(data) && res != nil && fresh(res) && qrRow(vi) && vi.Level == ecl && qrCap(vi) * 8 >= 8 * len(content) + qrHdr(vi, 4)
+//@   loop 1 invariant forall k int :: 0 <= k && k < len(content) ==> data[k] == content[k]
+//@   loop 1 invariant res.count == qrHdr(vi, 4) + 8 * (rangeindex + 1)
+//@   loop 1 invariant !res.model[0] && res.model[1] && !res.model[2] && !res.model[3]
+//@   loop 1 invariant forall t int :: 0 <= t && t < qrCCB(vi, 4) ==> res.model[4 + t] == qrBitOf(len(content), qrCCB(vi, 4), t)
+//@   loop 1 invariant forall k int, t int :: 0 <= k && k <= rangeindex && 0 <= t && t < 8 ==> res.model[qrHdr(vi, 4) + 8*k + t] == qrBitOf(content[k], 8, t)
